@@ -754,6 +754,7 @@ def printable_rule(run, ctx):
                 good = False
                 break
             outs = []
+            vals = S.run_path(feas[0], vals)[1]        # named temporaries (`let digit = x % 10`) are followed
             for ev in feas[0].events:
                 if ev.kind != "call" or ev.node is None:
                     continue
@@ -1031,6 +1032,9 @@ def slot_rule(run, ctx):
                     continue
                 lets = {ev.a: ev.b for ev in p.events if ev.kind == "let"}
                 rv = H.subst_lets(v, lets)
+                mnew = re.match(r"^Some\(Match::new\((\w+),(.*)\.\.(.*)\)\)$", rv)
+                if mnew and H._balanced(mnew.group(2)) and H._balanced(mnew.group(3)):
+                    rv = "Some(Match{end:%s,start:%s,text:%s})" % (mnew.group(3), mnew.group(2), mnew.group(1))     # the private constructor
                 conds = [(H.subst_lets(ev.a, lets), ev.b) for ev in p.events if ev.kind == "cond"]
                 SL = "(2 * %s)" % I
                 beyond = [t for c_, t in conds if c_ == "(len(saves) <= %s)" % SL]
